@@ -71,6 +71,10 @@ pub fn nickname_input(env: &Env, rng: &mut Rng, j: usize) -> String {
             let b = format!("{} {}", b, gen::name_like(p, rng, 6));
             env.var().variant(p, rng, &b)
         }
+        3 => {
+            let core = format!("{} {}", gen::name_like(p, rng, 5), gen::name_like(p, rng, 4));
+            gen::edge_whitespace(p, rng, &core)
+        }
         _ => super::c05::freeform_input(env, rng, j),
     }
 }
@@ -89,7 +93,7 @@ pub fn run(env: &Env) -> Rec {
             s.push(pool[a]);
             s.push(pool[b]);
             check(env, &s, rec);
-            if !env.quick() || (a + b) % 7 == env.seed as usize % 7 {
+            if true {
                 for c in 0..k {
                     s.clear();
                     s.push(pool[a]);
@@ -103,13 +107,13 @@ pub fn run(env: &Env) -> Rec {
     rec.merge(r1);
     rec.exhaustive(format!(
         "all pairs{} over the {} characters whose NFKC form introduces a space, plus marks, spaces and multi-byte letters ({} symbols)",
-        if env.quick() { " and a seed-dependent 1/7 of the triples" } else { " and triples" },
+        " and triples",
         p.space_intro.len(),
         k
     ));
     // exhaustive short strings over representatives
     let alpha: [char; 9] = [' ', '\u{A0}', 'a', '\u{E9}', '\u{A8}', '\u{FDFA}', '\u{301}', '\u{FF21}', '\u{1F600}'];
-    let max_len = if env.quick() { 4 } else { 6 };
+    let max_len = if env.quick() { 5 } else { 7 };
     let total = util::n_strings(9, max_len);
     let per = 2048usize;
     let r2 = par(total.div_ceil(per), |c, rec| {
@@ -121,7 +125,7 @@ pub fn run(env: &Env) -> Rec {
     });
     rec.merge(r2);
     rec.exhaustive(format!("all strings up to length {} over {{SP, A0, a, E9, A8, FDFA, 301, FF21, 1F600}}", max_len));
-    let n = env.n(200_000, 8_000_000);
+    let n = env.n(2_000_000, 60_000_000);
     let per = 1000usize;
     let r3 = par(n.div_ceil(per), |c, rec| {
         let mut rng = Rng::stream(env.seed, 0x06_0000 + c as u64);
@@ -131,6 +135,24 @@ pub fn run(env: &Env) -> Rec {
         }
     });
     rec.merge(r3);
+    let n_long = env.n(15_000, 500_000);
+    let per = 200usize;
+    let r4 = par(n_long.div_ceil(per), |c, rec| {
+        let mut rng = Rng::stream(env.seed, 0x06_C000 + c as u64);
+        super::hostile::drive(&mut rng, per, 65536, |rng| { let j = rng.below(8); let s = nickname_input(env, rng, j); s.chars().take(6).collect() }, |s| check(env, s, rec));
+    });
+    rec.merge(r4);
+    // block-structured strings (16-byte ASCII blocks, multi-byte runs, spaces of every kind)
+    super::hostile::macro_enum(&super::hostile::SPACE_MACROS, if env.quick() { 4 } else { 5 }, |s| check(env, s, &mut rec));
+    // runs of combining marks of every length up to 70 after a base, with and without a compatibility character
+    for k in 0..=70usize {
+        for m in ['\u{301}', '\u{334}', '\u{5B8}'] {
+            let run: String = std::iter::repeat(m).take(k).collect();
+            for f in [format!("a{}", run), format!("x{} \u{2163}", run), format!("\u{FF21}{}\u{A0}", run)] {
+                check(env, &f, &mut rec);
+            }
+        }
+    }
     check(env, "", &mut rec);
     rec
 }
